@@ -810,9 +810,24 @@ def run_shard(ctx):
     hs.method(CvxpyLossMinimizationEstimator, "calc_estimate_sequence", post=post_cvx)
 
     # ---------------------------------------------------------------- driver
+    # objects kept for the whole shard: on two cases of three the estimates are made with these RE-USED estimator / loss /
+    # algorithm objects (each case has another tomography of the same shape and other data), on the others with fresh
+    # ones; the oracles are the same - a minimiser is a minimiser whatever the objects did before
+    shared = {}
+
+    def obj(reuse, name, factory):
+        if not reuse:
+            return factory()
+        if name not in shared:
+            shared[name] = factory()
+        else:
+            ctx.count("re-used:" + name.split(":")[0])
+        return shared[name]
+
     try:
         for i in ctx.cases(P["n"]):
             rng = ctx.rng()
+            reuse = (i % 3 != 0)
             st["rng"] = rng
             st["runs"], st["cvx"] = [], []
             qt, c_sys, B, d, t, m = build_problem(tomo, shape, flag, rng)
@@ -869,8 +884,9 @@ def run_shard(ctx):
                 if not ok:
                     ctx.violation(f"pgdb:option:{mode}:" + ctx.exc_key(opt), {"kw": {k: v for k, v in kw.items() if k != 'var_start'}})
                     continue
-                ok, res = ctx.attempt(LossMinimizationEstimator().calc_estimate, qt, fresh(), Lc(), Oc("identity"),
-                                      ProjectedGradientDescentBacktracking(), opt, is_computation_time_required=True,
+                ok, res = ctx.attempt(obj(reuse, "estimator", LossMinimizationEstimator).calc_estimate, qt, fresh(),
+                                      obj(reuse, f"loss:{Lc.__name__}", Lc), Oc("identity"),
+                                      obj(reuse, "pgdb", ProjectedGradientDescentBacktracking), opt, is_computation_time_required=True,
                                       is_detailed_results_required=True)
                 if not ok:
                     # (one key per loss family and raising site: the stopping mode / type do not matter to an exception)
@@ -881,9 +897,10 @@ def run_shard(ctx):
                 ctx.count("pgdb-estimates")
             # ---- CVXPY-backed estimator (SCS); supports only the parametrisation with the equality constraint built in
             Lcv = CvxpyUniformSquaredError if fam == "se" else CvxpyRelativeEntropy
-            ok, res = ctx.attempt(CvxpyLossMinimizationEstimator().calc_estimate, qt, fresh(), Lcv(), CvxpyLossFunctionOption(),
-                                  CvxpyMinimizationAlgorithm(), CvxpyMinimizationAlgorithmOption(name_solver="scs", eps_tol=1e-9,
-                                                                                                mode_constraint="physical"))
+            ok, res = ctx.attempt(obj(reuse, "cvx-estimator", CvxpyLossMinimizationEstimator).calc_estimate, qt, fresh(),
+                                  obj(reuse, f"cvx-loss:{Lcv.__name__}", Lcv), CvxpyLossFunctionOption(),
+                                  obj(reuse, "cvx-algo", CvxpyMinimizationAlgorithm),
+                                  CvxpyMinimizationAlgorithmOption(name_solver="scs", eps_tol=1e-9, mode_constraint="physical"))
             if flag:
                 if not ok:
                     ctx.violation(f"cvxpy-scs:{fam}:" + ctx.exc_key(res), {"type": t, "flag": flag, "shots": N, "message": str(res)[:200]})
